@@ -30,6 +30,7 @@ func C07(r *h.Run) {
 	accepts := []string{"", "tagA", "gzip,tagA", "zstd", "identity"}
 
 	c07GzipTruncated(r, rng.Fork("gzip-truncated"))
+	c07NilCompression(r)
 	for i := 0; i < r.N(700, 9000); i++ {
 		proto := protos[rng.Intn(3)]
 		kind := kinds[rng.Intn(4)]
@@ -447,6 +448,75 @@ func c07GzipTruncated(r *h.Run, rng *h.Rng) {
 				}
 				if code != "invalid_argument" {
 					r.Fail(h.Failure{Key: "serve/undecodable-not-invalid-argument", Family: "gzip_truncated", What: "an incomplete gzip stream did not reach the peer as invalid_argument", Input: in, Actual: code})
+				}
+			}
+		}
+	}
+}
+
+// c07NilCompression: a handler configured with WithCompression(name, nil, nil) — documented as
+// a no-op — serves every request as a handler without that option would: no panic, gzip (the
+// default) still works, an unregistered name is still refused as unimplemented.
+func c07NilCompression(r *h.Run) {
+	var zb bytes.Buffer
+	zw := gzip.NewWriter(&zb)
+	_, _ = zw.Write([]byte("payload"))
+	_ = zw.Close()
+	for _, name := range []string{"gzip", "br"} {
+		for _, proto := range []string{"connect", "grpc", "grpcweb"} {
+			for _, mode := range []string{"request compressed with it", "response asked in it", "neither"} {
+				cfg := envCfg{Proto: proto}
+				calls := 0
+				var got []byte
+				handler := connect.NewUnaryHandler("/verif.Svc/M", func(_ context.Context, req *connect.Request[h.Raw]) (*connect.Response[h.Raw], error) {
+					calls++
+					got = append([]byte(nil), req.Msg.B...)
+					return connect.NewResponse(&h.Raw{B: bytes.Repeat([]byte("r"), 64)}), nil
+				}, connect.WithCodec(h.ToyCodec{}), connect.WithCompression(name, nil, nil))
+				unary := proto == "connect"
+				wire, flag := []byte("payload"), byte(0)
+				if mode == "request compressed with it" {
+					wire, flag = zb.Bytes(), 1
+				}
+				body := wire
+				if !unary {
+					body = h.Frame(flag, wire)
+				}
+				req := httptest.NewRequest("POST", "/verif.Svc/M", bytes.NewReader(body))
+				req.Header.Set("Content-Type", cfg.contentType(unary))
+				switch mode {
+				case "request compressed with it":
+					req.Header.Set(cfg.encodingHeader(unary), name)
+				case "response asked in it":
+					acc := "Grpc-Accept-Encoding"
+					if unary {
+						acc = "Accept-Encoding"
+					}
+					req.Header.Set(acc, name)
+				}
+				rec := httptest.NewRecorder()
+				timedOut, p := withWatchdog(5*time.Second, func() { handler.ServeHTTP(rec, req) })
+				in := map[string]any{"proto": proto, "kind": "unary", "handler_option": fmt.Sprintf("WithCompression(%q, nil, nil)", name), "request": mode}
+				r.Eval("nil_compression", fmt.Sprint(name, proto, mode))
+				if timedOut || p != nil {
+					r.Fail(h.Failure{Key: "serve/hang-or-panic", Family: "nil_compression", What: fmt.Sprint("hang or panic: ", p, " timeout=", timedOut), Input: in})
+					continue
+				}
+				peerKind := "server"
+				if unary {
+					peerKind = "unary"
+				}
+				code, _ := peerError(proto, peerKind, rec)
+				r.Sample("nil_compression", map[string]any{"in": in, "peer_code": code, "user_calls": calls})
+				switch {
+				case name == "br" && mode == "request compressed with it":
+					if code != "unimplemented" || calls != 0 {
+						r.Fail(h.Failure{Key: "serve/unknown-compression", Family: "nil_compression", What: "unknown request compression not rejected as unimplemented before user code", Input: in, Actual: fmt.Sprint(code, " calls=", calls)})
+					}
+				default:
+					if code != "" || calls != 1 || !bytes.Equal(got, []byte("payload")) {
+						r.Fail(h.Failure{Key: "serve/no-op-option-changed-behaviour", Family: "nil_compression", What: "the documented no-op changed how the request is served", Input: in, Actual: fmt.Sprint(code, " calls=", calls, " got=", string(got))})
+					}
 				}
 			}
 		}
